@@ -1,3 +1,4 @@
 import CohdlVerif.Model.DriverLoop
--- model driver of property C19 (stub: no model entry points yet)
-def main : IO Unit := CohdlVerif.driverLoop (fun _ => "bad-op")
+import CohdlVerif.Model.C19
+-- model driver of property C19:  resize | arith | ctor | eq  (protocol: end of Model/C19.lean)
+def main : IO Unit := CohdlVerif.driverLoop CohdlVerif.C19.handle
